@@ -199,7 +199,7 @@ class BaseDensePauliString(raw_types.Gate, metaclass=abc.ABCMeta):
             )
             if power % 2 == 0:
                 return concrete_class.eye(len(self)).__mul__(coef)
-            return concrete_class(coefficient=coef, pauli_mask=self.pauli_mask)
+            return concrete_class(coefficient=coef, pauli_mask=np.copy(self.pauli_mask))
         return NotImplemented
 
     @overload
@@ -227,7 +227,7 @@ class BaseDensePauliString(raw_types.Gate, metaclass=abc.ABCMeta):
         return len(self.pauli_mask)
 
     def __neg__(self):
-        return type(self)(coefficient=-self.coefficient, pauli_mask=self.pauli_mask)
+        return type(self)(coefficient=-self.coefficient, pauli_mask=np.copy(self.pauli_mask))
 
     def __truediv__(self, other):
         if isinstance(other, (sympy.Basic, numbers.Number)):
@@ -241,7 +241,7 @@ class BaseDensePauliString(raw_types.Gate, metaclass=abc.ABCMeta):
             new_coef = protocols.mul(self.coefficient, other, default=None)
             if new_coef is None:
                 return NotImplemented
-            return concrete_class(pauli_mask=self.pauli_mask, coefficient=new_coef)
+            return concrete_class(pauli_mask=np.copy(self.pauli_mask), coefficient=new_coef)
 
         if (other_dps := _try_interpret_as_dps(other)) is not None:
             if isinstance(other_dps, MutableDensePauliString):
@@ -288,7 +288,7 @@ class BaseDensePauliString(raw_types.Gate, metaclass=abc.ABCMeta):
         coef = self.coefficient
         return type(self)(
             coefficient=sympy.Abs(coef) if isinstance(coef, sympy.Expr) else abs(coef),
-            pauli_mask=self.pauli_mask,
+            pauli_mask=np.copy(self.pauli_mask),
         )
 
     def on(self, *qubits: cirq.Qid) -> cirq.PauliString:
